@@ -364,7 +364,7 @@ impl Property for C04 {
     }
     fn runs(&self, tier: Tier) -> usize {
         match tier {
-            Tier::Quick => 6000,
+            Tier::Quick => 20_000,
             Tier::Thorough => 120_000,
         }
     }
@@ -412,7 +412,11 @@ impl Property for C04 {
         }
         // (b) wire monitor over a whole BMC or PDR conversation of a (smaller) system
         let use_pdr = crng.chance(1, 3);
-        let sys2 = gen_system(&mut rng, 8, 3, use_pdr, |_| {});
+        let sys2 = if use_pdr {
+            gen_bounded_system(&mut rng, 8, 3, true, 8, |_| {})
+        } else {
+            gen_system(&mut rng, 8, 3, false, |_| {})
+        };
         let engine = if use_pdr {
             Engine::Pdr {
                 disable_cores: crng.bool(),
